@@ -223,7 +223,22 @@ pub fn run(ctx: &mut Ctx) {
                 if let Ok(fresh) = problem::run(&pm_problem, &st) {
                     ctx.eval(1);
                     let (vl, vf) = (verdict_class(res.status), verdict_class(fresh.status));
-                    if vl != '-' && vf != '-' && vl != vf {
+                    // a problem that is primal AND dual infeasible admits either verdict: a P/D pair is accepted
+                    // when the fresh solver's certificate also passes the documented test on the model data (the
+                    // live one was judged above)
+                    let mut both_infeasible = false;
+                    if (vl == 'P' && vf == 'D') || (vl == 'D' && vf == 'P') {
+                        if let Some(fe) = fresh.final_event() {
+                            let pmf = presolve_model(&pm_problem, &st, &fresh, bound);
+                            let evf = eval_with_model(&pm_problem, &fresh, &pmf, bound);
+                            let almost = matches!(fresh.status, SolverStatus::AlmostPrimalInfeasible | SolverStatus::AlmostDualInfeasible);
+                            let (ta, tr) = if almost { (st.reduced_tol_infeas_abs, st.reduced_tol_infeas_rel) } else { (st.tol_infeas_abs, st.tol_infeas_rel) };
+                            both_infeasible = judge_certificate(&evf, vf == 'P', fe.κ, fresh.c, ta, tr).is_empty() && fail.is_none();
+                        }
+                    }
+                    if both_infeasible {
+                        ctx.bump("primal_and_dual_infeasible_after_update_(either_verdict_valid)");
+                    } else if vl != '-' && vf != '-' && vl != vf {
                         fail = Some(("verdict_differs_from_fresh_solver".into(), json!({"live": status_name(res.status), "fresh": status_name(fresh.status)})));
                     } else if res.status == SolverStatus::Solved && fresh.status == SolverStatus::Solved {
                         let den = fresh.obj_val.abs().max(1.0);
